@@ -20,7 +20,7 @@
   vector or a repeated column) the real code divides by zero and stores NaN — recorded as a known
   finding by the monitor of `checks/c10.py`.
 
-  Partial (see the comment at `history_orthonormal`): the benefit of the *re*orthogonalisation loop
+  Partial (see the comment at `history_orthonormal_partial`): the benefit of the *re*orthogonalisation loop
   and `min_eig` / `max_eig` are modelled and carried through every proof, but nothing is proved about
   conditioning in floating point; in exact arithmetic reorthogonalisation is a no-op on an orthonormal
   `Q` and the bookkeeping identity holds for any number of passes.
